@@ -2,7 +2,7 @@
 (C04, the converse, shares everything here: harness/c04.py imports this module.)
 
 Correspondence: a history over the operation alphabet of Model/History.v
-    Write f c | Touch f | Delete f | WriteSameMtime f c | SetDef t def | SetChecker c | SaveOk t |
+    Write f c | Touch f | WriteAt f c m | TouchAt f m | Delete f | WriteSameMtime f c | SetDef t def | SetChecker c | SaveOk t |
     Remove t | Ignore t | ResetDep t | ForgetAll | Check t | CheckLog t        (+ Reopen: harness only)
 is executed against the REAL doit.dependency.Dependency on each backend (JsonDB, DbmDB, SqliteDB)
 in a temp dir, with real doit.task.Task objects rebuilt for every operation, files written with
@@ -89,6 +89,10 @@ def op_coq(o):
     k = o[0]
     if k in ('Write', 'WriteSameMtime'):
         return '%s %d %d' % (k, o[1], o[2])
+    if k == 'WriteAt':
+        return 'WriteAt %d %d %s' % (o[1], o[2], '(%d)' % o[3] if o[3] < 0 else o[3])
+    if k == 'TouchAt':
+        return 'TouchAt %d %s' % (o[1], '(%d)' % o[2] if o[2] < 0 else o[2])
     if k in ('Touch', 'Delete', 'SaveOk', 'Remove', 'Ignore', 'ResetDep', 'Check', 'CheckLog'):
         return '%s %d' % (k, o[1])
     if k == 'SetDef':
@@ -130,6 +134,8 @@ class World:
         self.clock = 1
         self.defs = {t: dict(file_dep=[], targets=[], uptodate=[], values=[], result=None) for t in range(NT)}
         self.fsview = {}            # shadow file system: f -> (mtime, size, content id)
+        self.seen = {}              # (f, mtime) -> (size, content id): every version a file ever had
+        self.not_fresh = False      # some file carried one mtime with two different contents (FS-fresh broken)
         self.open()
 
     def path(self, f):
@@ -224,6 +230,18 @@ class World:
         ns = (BASE + m) * 10 ** 9
         os.utime(p, ns=(ns, ns))
         self.fsview[f] = (m, len(CONTENT[c]), c)
+        if self.seen.setdefault((f, m), (len(CONTENT[c]), c)) != (len(CONTENT[c]), c):
+            self.not_fresh = True
+            self.seen[(f, m)] = (len(CONTENT[c]), c)
+
+    def op_WriteAt(self, f, c, m):
+        self._write(f, c, m)
+        return []
+
+    def op_TouchAt(self, f, m):
+        if f in self.fsview:
+            self._write(f, self.fsview[f][2], m)
+        return []
 
     def op_Write(self, f, c):
         self._write(f, c, self.clock)
@@ -412,7 +430,7 @@ class Shadow:
     """what the last successful execution / reset-dep of each task observed; never looks at the DB"""
     def __init__(self):
         self.last_ok = {}
-        self.fresh = True        # no WriteSameMtime so far (hypothesis FS-fresh)
+        self.fresh = True        # hypothesis FS-fresh so far: no file carried one mtime with two different contents
         self.crashed = False
 
     @staticmethod
@@ -451,9 +469,9 @@ class Shadow:
 
     def after(self, w, o, logged, out):
         k = o[0]
-        if k == 'WriteSameMtime':
+        if w.not_fresh:
             self.fresh = False
-        elif k == 'SaveOk' or k == 'ResetDep':
+        if k == 'SaveOk' or k == 'ResetDep':
             t = o[1]
             code = logged[2]
             if (k == 'SaveOk' and code == 0) or (k == 'ResetDep' and code == 2):
@@ -663,6 +681,82 @@ def gen_history(rng, n_ops, allow_same_mtime):
     return h
 
 
+def vary_mtimes(rng, h, allow_notfresh, out, p=0.45):
+    """rewrites some Write/Touch operations of a history into WriteAt/TouchAt with an ARBITRARY mtime:
+    older than the file's current one (cp -p, tar, rsync -t, restoring a backup), far ahead of the clock,
+    or an mtime the file had before -- with the content it had then (restore: fine) or, only in the
+    not-FS-fresh family, with another content (the md5 same-mtime caveat).  Simulates clock and versions
+    to classify; counts every kind in the evidence (mtime:*)."""
+    clock, cur, seen, res = 1, {}, {}, []
+
+    def record(f, m, c):
+        cur[f] = (m, c)
+        seen.setdefault(f, {}).setdefault(m, c)
+
+    for o in h:
+        k = o[0]
+        if k in ('Write', 'Touch') and (k == 'Write' or o[1] in cur) and rng.random() < (p + 0.25 if o[1] in cur else p / 3):
+            f = o[1]
+            c = o[2] if k == 'Write' else cur[f][1]
+            olds = seen.get(f, {})
+            kinds = ['backward', 'backward', 'forward']
+            if f in cur:
+                kinds += ['backward-below-current']
+            if any(cc == c for cc in olds.values()):
+                kinds += ['reuse-same-content', 'reuse-same-content']
+            if k == 'Write' and f in cur and any(mm != cur[f][0] for mm in olds):
+                kinds += ['restore-old-version', 'restore-old-version']
+            if allow_notfresh and any(cc != c for cc in olds.values()):
+                kinds += ['reuse-other-content'] * 6
+            kind = rng.choice(kinds)
+            if kind == 'restore-old-version':       # an earlier version comes back as it was: content AND mtime
+                m, c = rng.choice([(mm, cc) for mm, cc in olds.items() if mm != cur[f][0]])
+            elif kind == 'backward':
+                m = -rng.randrange(1, 40)
+            elif kind == 'backward-below-current':
+                m = cur[f][0] - rng.randrange(1, 6)
+            elif kind == 'forward':
+                m = max(clock, cur[f][0] if f in cur else 0) + rng.randrange(40, 90)
+            elif kind == 'reuse-same-content':
+                m = rng.choice([mm for mm, cc in olds.items() if cc == c])
+            else:
+                m = rng.choice([mm for mm, cc in olds.items() if cc != c])
+            # classify by what it really is w.r.t. the versions seen (a picked value may hit one by chance)
+            if m in olds:
+                real = 'reuse-same-content' if olds[m] == c else 'reuse-other-content'
+                if real == 'reuse-other-content' and not allow_notfresh:
+                    m = -rng.randrange(41, 400)
+                    while m in olds:
+                        m -= 1
+                    real = 'backward'
+            elif f in cur and m < cur[f][0]:
+                real = 'backward'
+            elif f in cur:
+                real = 'forward'
+            else:
+                real = 'create'
+            if f in cur and m == cur[f][0]:
+                real += '+equal-current'
+            out.count('mtime:%s:%s' % ('write' if k == 'Write' else 'touch', real))
+            res.append(('WriteAt', f, c, m) if k == 'Write' else ('TouchAt', f, m))
+            record(f, m, c)
+            continue
+        if k == 'Write':
+            if o[1] in cur and clock < cur[o[1]][0]:
+                out.count('mtime:write:clock-behind-file')      # a forward-clock write that is older than the file
+            record(o[1], clock, o[2]); clock += 1
+        elif k == 'Touch':
+            if o[1] in cur:
+                record(o[1], clock, cur[o[1]][1])
+            clock += 1
+        elif k == 'Delete':
+            cur.pop(o[1], None)
+        elif k == 'WriteSameMtime' and o[1] in cur:
+            cur[o[1]] = (cur[o[1]][0], o[2])
+        res.append(o)
+    return res
+
+
 def D(fd=(), tg=(), utd=(), values=(), result=None):
     return dict(file_dep=list(fd), targets=list(tg), uptodate=list(utd), values=list(values), result=result)
 
@@ -702,6 +796,17 @@ def scripted():
         # the md5 optimisation at its limit (not FS-fresh)
         hs.append(S + [('SetDef', 0, D([0])), ('SaveOk', 0), ('WriteSameMtime', 0, 1), ('Check', 0), ('SaveOk', 0), ('Write', 0, 0), ('Check', 0),
                        ('Write', 0, 1), ('Check', 0)])
+        # a file dep replaced by OTHER content with an OLDER mtime than the recorded one (cp -p, tar, rsync -t):
+        # the run after it executes and must record the new state; later checks are up-to-date
+        hs.append([('SetChecker', ck), ('WriteAt', 0, 1, 200), ('SetDef', 0, D([0])), ('Check', 0), ('SaveOk', 0), ('Check', 0),
+                   ('WriteAt', 0, 0, 100), ('Check', 0), ('SaveOk', 0), ('Check', 0), ('Reopen',), ('Check', 0), ('Touch', 0), ('Check', 0)])
+        # older mtime, same content (restored from a backup) / touched backwards / far in the future and back
+        hs.append([('SetChecker', ck), ('WriteAt', 0, 1, 50), ('Write', 1, 0), ('SetDef', 0, D([0, 1])), ('SaveOk', 0), ('WriteAt', 0, 1, -7), ('Check', 0),
+                   ('SaveOk', 0), ('TouchAt', 1, -3), ('Check', 0), ('WriteAt', 0, 3, 900), ('Check', 0), ('SaveOk', 0), ('WriteAt', 0, 1, 50), ('Check', 0),
+                   ('SaveOk', 0), ('Check', 0), ('WriteAt', 0, 3, 900), ('Check', 0)])
+        # an mtime the file had before, now with ANOTHER content (not FS-fresh: the md5 same-mtime caveat, second form)
+        hs.append([('SetChecker', ck), ('WriteAt', 0, 0, 5), ('SetDef', 0, D([0])), ('SaveOk', 0), ('WriteAt', 0, 1, 7), ('WriteAt', 0, 3, 5), ('Check', 0),
+                   ('SaveOk', 0), ('WriteAt', 0, 0, 9), ('Check', 0)])
         # deleted dep / deleted target / missing at save
         hs.append(S + [('SetDef', 0, D([0, 1], tg=[2])), ('Write', 2, 2), ('SaveOk', 0), ('Check', 0), ('Delete', 2), ('Check', 0), ('Write', 2, 2),
                        ('Delete', 1), ('Check', 0), ('CheckLog', 0), ('SaveOk', 0), ('Check', 0), ('ResetDep', 0)])
@@ -745,7 +850,10 @@ def explore(ctx, out):
     lim = ctx.n(8, 14)
     for i in range(n):
         same = (i % 10 == 9)
-        histories.append(('random-notfresh' if same else 'random', gen_history(rng, rng.randrange(3, lim + 1), same)))
+        h = gen_history(rng, rng.randrange(3, lim + 1), same)
+        if i % 3 != 0:          # two thirds of the histories get arbitrary (older / newer / re-used) mtimes
+            h = vary_mtimes(rng, h, same, out)
+        histories.append(('random-notfresh' if same else 'random', h))
     cases, verdicts = [], {}
     for hi, (kind, h) in enumerate(histories):
         h = fix_orders(ctx, h)
@@ -987,8 +1095,10 @@ def run_e2e(ctx, backend, h, out):
     try:
         for o in h:
             k = o[0]
-            if k in ('Write', 'Touch', 'Delete', 'SetDef'):
+            if k in ('Write', 'Touch', 'WriteAt', 'TouchAt', 'Delete', 'SetDef'):
                 w.apply(o)
+                if w.not_fresh:
+                    sh.fresh = False
             elif k == 'SetChecker':
                 w.ck = o[1]
             elif k == 'Run':
@@ -1077,7 +1187,10 @@ def explore_e2e(ctx, out):
     cases = []
     n = ctx.n(36, 300)
     for i in range(n):
-        h = fix_orders(ctx, gen_e2e(rng, rng.randrange(3, ctx.n(8, 14) + 1)))
+        h = gen_e2e(rng, rng.randrange(3, ctx.n(8, 14) + 1))
+        if i % 3 != 0:
+            h = vary_mtimes(rng, h, False, out)
+        h = fix_orders(ctx, h)
         b = ('json', 'dbm', 'sqlite')[i % 3]
         try:
             obs = run_e2e(ctx, b, h, out)
